@@ -241,6 +241,7 @@ func main() {
 	genStyle(ps, out)
 	genApi(ps, out)
 	genLocks(ps, out)
+	genTrustedSource(ps, out)
 	if len(failures) > 0 {
 		for _, f := range failures {
 			fmt.Println("translator: cannot extract", f)
